@@ -119,7 +119,8 @@ func (s Subject) IsContainedIn(other Subject) bool {
 			return true
 		}
 
-		if tok != myTok && tok != "*" {
+		// a ">" on our side matches more than a "*" on the other side can
+		if tok != myTok && (tok != "*" || myTok == ">") {
 			return false
 		}
 	}
